@@ -310,7 +310,7 @@ def main(tier, seed, t0):
     os.makedirs(tmp)
     prop = Prop()
     prop.tier = tier
-    agg = core.new_agg()
+    agg = core.new_agg(prop.ID)
     try:
         POOL = build_pool(tmp)
         json.dump(POOL, open(os.path.join(tmp, 'pool.json'), 'w'))
